@@ -12,7 +12,7 @@ SHARD = 300
 RULE = ("(timeline, support for gaps: None/Segment/Timeline, removed region, other timeline): every timeline of <=2 "
         "(quick) / <=3 (thorough) segments x every region of <=2 segments on a 6-point grid (overhanging the extent on "
         "both sides, empty) in K0, a random third in K4/K1, plus random larger ones; observed: gaps, list(gaps_iter), "
-        "extrude in three modes, covers both ways; non-trivial = non-empty timeline and non-empty region")
+        "extrude in three modes, covers both ways; copies translated 2 h, 28 h, 3 d or -8 h 20 min from the origin; non-trivial = non-empty timeline and non-empty region")
 
 
 def generate(rng, tier):
